@@ -89,7 +89,7 @@ func TestVerifC18Startup(t *testing.T) {
 	defer rep.Write()
 	healthy := []string{"udp", "tcp", "gnet", "http", "fasthttp", "tls", "https", "quic"}
 	failing := []string{"port-in-use", "port-in-use:gnet", "port-in-use:http", "port-in-use:fasthttp", "port-in-use:tls", "port-in-use:https", "port-in-use:udp", "port-in-use:quic",
-		"missing-cert", "missing-cert:https", "missing-cert:quic", "unknown-protocol", "bad-listen-address", "quic-invalid-stream-limit",
+		"missing-cert", "missing-cert:https", "missing-cert:quic", "unknown-protocol", "bad-listen-address",
 		// not a listener at all: the configuration fails before / after the listeners, with a metrics endpoint configured
 		"upstream-with-unknown-protocol", "missing-domain-set-file", "rule-names-unknown-upstream",
 		// an upstream entry that is rejected after (or before) its transport was built: quic and h3 upstreams bind a UDP socket when they are made
@@ -188,13 +188,6 @@ func TestVerifC18Startup(t *testing.T) {
 						cfg.Servers = append(cfg.Servers, sc)
 						// the entry that fails must not leave its own address bound either
 						bounds = append(bounds, bound{proto, port})
-					case "quic-invalid-stream-limit":
-						// the socket is bound, then the quic listener refuses its configuration
-						port := c18FreePort()
-						sc := mkServer("quic", port)
-						sc.Quic.MaxStreams = 1 << 61
-						cfg.Servers = append(cfg.Servers, sc)
-						bounds = append(bounds, bound{"quic", port})
 					case "unknown-protocol":
 						cfg.Servers = append(cfg.Servers, ServerConfig{Protocol: "sctp", Listen: "127.0.0.1:0"})
 					case "bad-listen-address":
